@@ -868,10 +868,10 @@ def create_formula(rep, add_formula):
         elif rep.name in g_tel_operators:
             rhs = create_formula(args[-1], add_formula)
             if rep.name == "<" or rep.name == "<:":
-                lhs = 1 if len(args) == 1 else create_number(args[0])
+                lhs = 1 if len(args) == 1 else create_offset(args[0])
                 return rhs if lhs == 0 else add_formula(Previous(rhs, lhs, rep.name == "<:"))
             elif rep.name == ">" or rep.name == ">:":
-                lhs = 1 if len(args) == 1 else create_number(args[0])
+                lhs = 1 if len(args) == 1 else create_offset(args[0])
                 return rhs if lhs == 0 else add_formula(Next(rhs, lhs, rep.name == ">:"))
             lhs = None if len(args) == 1 else create_formula(args[0], add_formula)
             if rep.name == "<;" or rep.name == "<:;":
